@@ -60,6 +60,10 @@ def run(chk: core.Check):
     quick = chk.tier == "quick"
     rng = np.random.default_rng(chk.seed)
     cfgs = configs(quick)
+    # the same simulator OBJECTS again with another step size, then with the first one again (get_sim caches objects per configuration
+    # without dt): a step must not depend on the dt, free stream or fields of the steps before it
+    again = [c for c in cfgs if c["sim"] in ("ns2", "ns3", "pt_scalar") and "dt" in c and "threads" not in c][: 3 if quick else 8]
+    cfgs = cfgs + [dict(c, dt=2 * c["dt"]) for c in again] + [dict(c) for c in again]
     nsteps = 2 if quick else 3
     for ci, cfg in enumerate(cfgs):
         if not quick and cfg["sim"] == "ns3" and ci % 2 == chk.seed % 2 and cfg.get("filter", "off") != "off" and cfg.get("order", 1) == 3:
